@@ -7,13 +7,14 @@ wt=${2:-/tmp/mut/$id}
 out=/verif/seeded/$id
 mkdir -p $out
 cd $wt || exit 2
-git diff > $out/patch.diff
+if [ ! -s $out/patch.diff ]; then git diff > $out/patch.diff; fi
+git checkout -q -- . && git apply $out/patch.diff || exit 3
 cp demo.py $out/demo.py
 {
 echo "== demo with the change"; /venv/bin/python demo.py > /tmp/mut/$id.demo_mod.txt 2>&1; echo "exit $?"; tail -3 /tmp/mut/$id.demo_mod.txt
-git stash -q
+git checkout -q -- .      # (no `git stash`: linked worktrees share one stash stack)
 echo "== demo without the change"; /venv/bin/python demo.py > /tmp/mut/$id.demo_orig.txt 2>&1; echo "exit $?"; tail -2 /tmp/mut/$id.demo_orig.txt
-git stash pop -q
+git apply $out/patch.diff
 echo "== test suite with the change"
 /venv/bin/python -m pytest -q -p no:cacheprovider --timeout=900 --deselect "spowtd/test/test_specific_yield.py::test_specific_yield[peatclsm-None]" --deselect "spowtd/test/test_transmissivity.py::test_transmissivity[peatclsm-None]" 2>&1 | tail -2
 } > $out/confirm.log 2>&1
